@@ -11,7 +11,8 @@ Import ListNotations.
 (* every mutant of the catalogue is ill-typed: all rules, all positions, all programs (15 rules: operand type, argument
    type, arity +1/-1, unknown name, unknown function, local of another function, name used after its block, set on an
    immutable let / a parameter / a loop variable, missing return on a path, return of the wrong type, return without
-   value, non-bool condition, a variable of type void, two parameters of one name, main with a parameter) *)
+   value, non-bool condition, a variable of type void, two parameters of one name, main with a parameter, a name used after a block that ends in
+   return / break / continue) *)
 Theorem C05_mut_ill_typed : forall r pos p p', wt p = true -> mut r pos p = Some p' -> wt p' = false.
 Proof. exact mut_ill_typed. Qed.
 Print Assumptions C05_mut_ill_typed.
